@@ -28,12 +28,15 @@ type respSpec struct {
 	// foreign: TTLs of further records in the answer section that are NOT on the chain from the asked name (another owner): their
 	// data is not used, but they are records of the response - its smallest TTL counts them
 	foreign []uint32
+	// via: TTLs of further CNAME records on the chain, behind the first one (c.example -> c1.example -> ...): the records of the
+	// asked type are then owned by the last alias; every alias followed is a record of the response and bounds its age
+	via []uint32
 }
 
 // per version: key -> response shape
 var versions = []map[string]respSpec{
 	{"n1/65": {ttls: []uint32{5}}, "n1/1": {ttls: []uint32{2, 5}}, "n1/28": {ttls: []uint32{1000}, foreign: []uint32{3}},
-		"n2/65": {ttls: []uint32{2147483647}} /* the largest TTL RFC 2181 allows */, "n2/1": {ttls: []uint32{5, 1}, cname: true}, "n2/28": {ttls: []uint32{2}, cname: true}},
+		"n2/65": {ttls: []uint32{2147483647}} /* the largest TTL RFC 2181 allows */, "n2/1": {ttls: []uint32{5, 1}, cname: true}, "n2/28": {ttls: []uint32{1000, 50}, cname: true, via: []uint32{400, 2}} /* the smallest TTL sits on the third alias of the chain */},
 	{"n1/65": {ttls: []uint32{0}}, "n1/1": {ttls: []uint32{5, 2}}, "n1/28": {ttls: []uint32{1000, 400}, foreign: []uint32{900, 2}},
 		"n2/65": {}, "n2/1": {ttls: []uint32{0, 5}, cname: true}, "n2/28": {ttls: []uint32{5}, cname: true}},
 	{"n1/65": {ttls: []uint32{1}}, "n1/1": {ttls: []uint32{0, 5}}, "n1/28": {},
@@ -49,6 +52,9 @@ func minTTL(s respSpec) (uint32, bool) {
 		m = min(m, t)
 	}
 	for _, t := range s.foreign {
+		m = min(m, t)
+	}
+	for _, t := range s.via {
 		m = min(m, t)
 	}
 	return m, true
@@ -67,6 +73,11 @@ func buildAnswer(name string, t uint16, v int) dohmem.Answer {
 		rrs = append(rrs, dnsref.RR{Name: name, Type: 5, Class: 1, TTL: ttls[0], Fields: []dnsref.Field{dnsref.N("c.example")}})
 		owner = "c.example"
 		ttls = ttls[1:]
+		for i, ttl := range s.via {
+			next := fmt.Sprintf("c%d.example", i+1)
+			rrs = append(rrs, dnsref.RR{Name: owner, Type: 5, Class: 1, TTL: ttl, Fields: []dnsref.Field{dnsref.N(next)}})
+			owner = next
+		}
 	}
 	for i, ttl := range ttls {
 		switch t {
